@@ -539,7 +539,8 @@ func propertyAssumptions(p string) []string {
 		"cryptographic primitives are uninterpreted functions; no hardness assumption is modelled",
 		"'modifies anything' contracts: the callee may change exactly the cells its body (transitively) can store to, computed per memory array and per struct field from the SSA; this relies on Go's type safety (no unsafe code in scope except the wipe helpers, which have explicit modifies clauses)",
 		"assignment targets are evaluated as the gc compiler does (pointer operands of the left-hand side after the calls on the right-hand side); go/ssa's order differs and the language leaves it open",
-		"the representation invariants of a Conversation (convOK, akeInv, empty injection queue, no completed fragment stream) are assumed at entry of the public functions under contract",
+		"the representation invariants of a Conversation (convOK, akeInv, smpInv, encOK, empty injection queue, no completed fragment stream) are assumed at entry of the public functions under contract",
+		"three axioms of number theory over the fixed 1536-bit prime p are trusted (unitp: 2..p-2 are units; units are closed under powmod(.,.,p) and products modulo p; a unit has an inverse modulo p); they are added only to queries of functions whose conditions mention unitp",
 	}
 	return append(base, propAssumptions[p]...)
 }
@@ -589,8 +590,24 @@ func undischargedClauses(results []*FuncResult) []string {
 		}
 	}
 	sort.Strings(missing)
-	if len(missing) == 0 {
-		return nil
+	// preconditions the callee's proof relies on that are not discharged at a call site
+	var pre []string
+	for _, r := range results {
+		for _, o := range r.Obls {
+			if !strings.HasPrefix(o.Kind, "requires") || all[o.Name] || seen[o.Name] {
+				continue
+			}
+			seen[o.Name] = true
+			pre = append(pre, o.Name+" (in "+r.Name+")")
+		}
 	}
-	return []string{"postconditions assumed at call sites (modular verification) but not discharged for the callee's body, so not counted as proved anywhere: " + strings.Join(missing, "; ")}
+	sort.Strings(pre)
+	var out []string
+	if len(missing) > 0 {
+		out = append(out, "postconditions assumed at call sites (modular verification) but not discharged for the callee's body, so not counted as proved anywhere: "+strings.Join(missing, "; "))
+	}
+	if len(pre) > 0 {
+		out = append(out, "preconditions that the proof of a callee assumes but that are not discharged at these call sites (the chain of reasoning has a gap there): "+strings.Join(pre, "; "))
+	}
+	return out
 }
